@@ -3,6 +3,8 @@
 package rules
 
 import (
+	"golang.org/x/tools/go/callgraph"
+	"golang.org/x/tools/go/callgraph/cha"
 	"fmt"
 	"go/ast"
 	"go/types"
@@ -24,6 +26,7 @@ type Env struct {
 	gm       *wiring.GoModel
 	ym       *wiring.YModel
 	modelErr bool
+	cha      *callgraph.Graph
 }
 
 // Control loads (once) a positive-control fixture module under /verif/fixtures.
@@ -43,6 +46,14 @@ func (e *Env) Control(name string, ssa bool) *load.Program {
 	}
 	e.ctlMap[k] = p
 	return p
+}
+
+// chaGraph: the class-hierarchy call graph of the loaded program (built once per run).
+func (e *Env) chaGraph() *callgraph.Graph {
+	if e.cha == nil {
+		e.cha = cha.CallGraph(e.P.SSA)
+	}
+	return e.cha
 }
 
 var registry = map[string]func(*Env){}
